@@ -48,6 +48,9 @@ type Node struct {
 	Hung        bool
 	IsAdversary bool // the adversary's shadow node: its publications are intercepted
 	Skew        time.Duration
+	// StalledUntil: the node's process is suspended (VM pause, swap storm) until this simulated instant: it runs no
+	// step, answers no request; what the network delivers meanwhile waits in its buffers
+	StalledUntil time.Duration
 	Keys        []*Validator // validators this node generates for
 	Log         *ringLogger
 	Starts      int
@@ -225,6 +228,7 @@ func (n *Node) DrainEvents() []interface{} {
 
 // Stop ends the node. graceful: databases are closed; otherwise the process is killed (power: un-synced data lost).
 func (n *Node) Stop(graceful, power bool) {
+	n.StalledUntil = 0
 	if !n.Up {
 		return
 	}
